@@ -8,7 +8,8 @@ T=/tmp/verif-cov
 mkdir -p $T/prof
 cd /verif/harness || exit 2
 export CARGO_NET_OFFLINE=true
-RUSTFLAGS="-Cinstrument-coverage" CARGO_TARGET_DIR=$T/target cargo +nightly build --release --offline --bins 2>&1 | tail -2
+# (build scripts are instrumented too and would drop default_*.profraw into the crate directories of /repo)
+LLVM_PROFILE_FILE="$T/build-%p-%8m.profraw" RUSTFLAGS="-Cinstrument-coverage" CARGO_TARGET_DIR=$T/target cargo +nightly build --release --offline --bins 2>&1 | tail -2
 B=$T/target/release
 export LLVM_PROFILE_FILE="$T/prof/%p-%8m.profraw"
 export VERIF_SEED=${VERIF_SEED:-1}
